@@ -87,7 +87,8 @@ Definition set_recommended_port_state (b : bport) (r : recommended) (dd : defaul
         end
       else match p_multiport_disable p with
            | Some _ =>
-               if is_passive (p_state p) then Ok b else
+               (* a faulty port stays faulty (repaired F26) *)
+               if is_passive (p_state p) || is_faulty (p_state p) then Ok b else
                let '(p1, o) := set_forced p PPassive in
                Ok (mkBP p1 (bp_best b) (bp_pending b) (bp_side b ++ o))
            | None =>
